@@ -115,6 +115,23 @@ pub fn full_lang(cfg: &Value) -> FullLang {
             op += 1;
         }
     }
+    // integer-only operators: bitwise and shifts
+    let mut op = 120u16;
+    for b in ["|", "^", "&", "<<", ">>", ">>>"] {
+        if strs(&cfg["binops"]).iter().any(|x| x == b) {
+            add(op, "SSS".to_string(), Some((format!("BinOp(op=\"{b}\";type=\"int\")"),
+                serde_json::json!({"kind": "BinOp", "op": b, "ty": "i"}))));
+        }
+        op += 1;
+    }
+    let mut op = 130u16;
+    for u in ["~", "!"] {
+        if strs(&cfg["unops"]).iter().any(|x| x == u) {
+            add(op, "SS".to_string(), Some((format!("UnOp(op=\"{u}\";type=\"int\")"),
+                serde_json::json!({"kind": "UnOp", "op": u, "ty": "i"}))));
+        }
+        op += 1;
+    }
     // comparison operators as values: `a = b < c` (the output is an int for both operand types)
     let mut op = 80u16;
     for c in ["==", "!=", "<", "<=", ">", ">="] {
